@@ -92,6 +92,7 @@ template <template <class> class QT> struct Row {
     else { if constexpr (!std::is_same_v<T, long double>) cast_to<long double>(via, src, out); else flat(src, out); }
   }
   static const char* print_number(VfLD x, unsigned long* len) { return ret_str(PhQ::Print<T>((T)x), len); }
+  static int parse_number(const char* text, unsigned long len, VfLD* out) { const std::optional<T> r = PhQ::ParseNumber<T>(std::string(text, len)); if (!r.has_value()) return 0; *out = r.value(); return 1; }
 
   // ---- units ---------------------------------------------------------------------------------------------
   template <class Dummy = void> struct Units {
@@ -157,7 +158,7 @@ template <template <class> class QT> struct Row {
     r.unit_type = ""; r.n_units = 0; r.unit_names = nullptr; r.standard = -1;
     r.size = sizeof(Q); r.align = alignof(Q); r.trivially_copyable = std::is_trivially_copyable_v<Q>; r.standard_layout = std::is_standard_layout_v<Q>; r.polymorphic = std::is_polymorphic_v<Q>;
     r.roundtrip = &roundtrip; r.zero = &zero; r.memcpy_array = &memcpy_array; r.history = &history; r.compare = &compare; r.hash = &hash; r.containers = &containers; r.cast = &cast;
-    r.print = &print; r.print_number = &print_number;
+    r.print = &print; r.print_number = &print_number; r.parse_number = &parse_number;
     if constexpr (HasUnit<Q>::value) {
       using UU = Units<>;
       r.unit_type = UU::D::tname; r.n_units = UU::D::n; r.unit_names = UU::D::names;
